@@ -739,6 +739,18 @@ def build():
         add(f"gen_{fam}_{opname}", hytera_generated(i), 2, mutable=(i % 4 == 0))
         add(f"dflt_{fam}_{opname}", hytera_default_built(i), 1, mutable=False)
 
+    def rcp_default_settings(r):
+        """a PDU built with its optional arguments left out, serialised - and then completed by its owner, who adds entries to the
+        PDU's own containers (status change settings, later re-sent): the next PDU built with defaults is as empty as the first"""
+        from okdmr.dmrlib.hytera.pdu import radio_control_protocol as R
+        p_ = R.RadioControlProtocol(opcode=R.RCPOpcode.StatusChangeNotificationRequest)
+        first = p_.as_bytes()
+        for t in r.sample([x for x in R.StatusChangeNotificationTargets], 2):
+            p_.status_change_settings[t] = r.choice([x for x in R.StatusChangeNotificationSetting])
+        return (first, len(p_.as_bytes())), []
+
+    add("rcp_default_settings", rcp_default_settings, 4)
+
     # ---------------------------------------------------------------- Motorola
     def mbxml():
         samples = harvest("motorola/test_lrrp.py") + harvest("motorola/test_mbxml.py")
